@@ -1,5 +1,1840 @@
-//! C12 - monitor not built yet.
-fn main() {
-    println!("INCONCLUSIVE property=C12 monitor not built yet");
-    std::process::exit(2);
+//! C12 - Vector search is sound, distance-ordered, and keeps its recall floor (anda_db_hnsw).
+//! Monitors (DESIGN.md C12):
+//!  (1) soundness of every search of every run against the harness's own bf16-rounded copy of the
+//!      live vectors (histories of insert / remove / re-insert / flush / reload),
+//!  (2) every crash prefix of the recorded `flush_with` + purge write sequence,
+//!  (3) the documented recall workloads of tests/recall.rs re-run with many independent
+//!      layer-RNG draws, plus interrupted-flush + re-indexing variants,
+//!  (4) a concurrent insert/remove/search stress judged against "live at some point of the call".
+
+use anda_db_hnsw::{DistanceMetric, HnswConfig, HnswError, HnswIndex, SelectNeighborsStrategy};
+use half::bf16;
+use std::cell::{Cell, RefCell};
+use std::collections::{BTreeMap, BTreeSet};
+use std::sync::Mutex;
+use std::sync::atomic::{AtomicU64, Ordering};
+use vcore::manual::drive;
+use vcore::{Rng, Run, Stats, Value, json};
+
+/// id -> vector as the index stores it (bf16-rounded, widened back to f32)
+type Model = BTreeMap<u64, Vec<f32>>;
+
+const METRICS: [DistanceMetric; 4] = [
+    DistanceMetric::Euclidean,
+    DistanceMetric::Cosine,
+    DistanceMetric::InnerProduct,
+    DistanceMetric::Manhattan,
+];
+
+fn metric_name(m: DistanceMetric) -> &'static str {
+    match m {
+        DistanceMetric::Euclidean => "euclidean",
+        DistanceMetric::Cosine => "cosine",
+        DistanceMetric::InnerProduct => "inner_product",
+        DistanceMetric::Manhattan => "manhattan",
+    }
 }
+
+fn strategy_name(s: SelectNeighborsStrategy) -> &'static str {
+    match s {
+        SelectNeighborsStrategy::Simple => "simple",
+        SelectNeighborsStrategy::Heuristic => "heuristic",
+    }
+}
+
+fn round_bf16(v: &[f32]) -> Vec<f32> {
+    v.iter().map(|x| bf16::from_f32(*x).to_f32()).collect()
+}
+
+fn to_bf16(v: &[f32]) -> Vec<bf16> {
+    v.iter().map(|x| bf16::from_f32(*x)).collect()
+}
+
+// ---------------------------------------------------------------------------------------------
+// metric oracle (f64, independent of distance.rs). Tolerances fixed before any result was seen:
+// 1e-2 relative + 1e-3 absolute, plus for the inner product (the only kernel with cancellation)
+// 1e-5 of the sum of |summands| (f32 accumulation over <= 64 terms).
+
+const TOL_REL: f64 = 1e-2;
+const TOL_ABS: f64 = 1e-3;
+/// above this magnitude an f32 intermediate of the kernel may overflow: metric undefined here
+const F32_SAFE: f64 = 1e37;
+
+struct Oracle {
+    d: f64,
+    tol: f64,
+    /// f32 overflow of an intermediate, or a norm at the cosine zero-vector cut-off
+    undefined: bool,
+}
+
+fn oracle(metric: DistanceMetric, q: &[f32], v: &[f32]) -> Oracle {
+    let (mut dot, mut adot, mut nq, mut nv, mut l2, mut l1) = (0f64, 0f64, 0f64, 0f64, 0f64, 0f64);
+    for (x, y) in q.iter().zip(v) {
+        let (x, y) = (*x as f64, *y as f64);
+        dot += x * y;
+        adot += (x * y).abs();
+        nq += x * x;
+        nv += y * y;
+        l2 += (x - y) * (x - y);
+        l1 += (x - y).abs();
+    }
+    match metric {
+        // distance.rs: sqrt of the sum of squares (root, not squared)
+        DistanceMetric::Euclidean => {
+            let d = l2.sqrt();
+            Oracle { d, tol: TOL_REL * d + TOL_ABS, undefined: l2 > F32_SAFE }
+        }
+        DistanceMetric::Manhattan => Oracle { d: l1, tol: TOL_REL * l1 + TOL_ABS, undefined: l1 > F32_SAFE },
+        // distance.rs: negative dot product
+        DistanceMetric::InnerProduct => Oracle {
+            d: -dot,
+            tol: TOL_REL * dot.abs() + TOL_ABS + 1e-5 * adot,
+            undefined: adot > F32_SAFE,
+        },
+        // distance.rs: 1 - clamp(cos); 1.0 when either norm < f32::EPSILON
+        DistanceMetric::Cosine => {
+            let eps = f32::EPSILON as f64;
+            let (a, b) = (nq.sqrt(), nv.sqrt());
+            let near_cut = |n: f64| n > 0.99 * eps && n < 1.01 * eps;
+            let undefined = nq > F32_SAFE || nv > F32_SAFE || adot > F32_SAFE || near_cut(a) || near_cut(b);
+            let d = if a < eps || b < eps { 1.0 } else { 1.0 - (dot / (a * b)).clamp(-1.0, 1.0) };
+            Oracle { d, tol: TOL_REL * d.abs() + TOL_ABS, undefined }
+        }
+    }
+}
+
+// ---------------------------------------------------------------------------------------------
+// monitor (1): the per-search judge
+
+struct Tags {
+    metric: DistanceMetric,
+    strategy: SelectNeighborsStrategy,
+}
+
+fn short_vec(v: &[f32]) -> String {
+    let head: Vec<String> = v.iter().take(6).map(|x| format!("{x:e}")).collect();
+    format!("[{}{}]", head.join(","), if v.len() > 6 { ",.." } else { "" })
+}
+
+/// Judges one search result against the harness copy `copy` of what is live NOW. `ever`: ids that
+/// were live at some earlier time (only to name the failure). Returns false on a violation.
+#[allow(clippy::too_many_arguments)]
+fn judge_search(
+    res: &Result<Vec<(u64, f32)>, HnswError>,
+    q: &[f32],
+    k: usize,
+    copy: &Model,
+    ever: &BTreeSet<u64>,
+    tags: &Tags,
+    what: &str,
+    st: &mut Stats,
+    ctx: &dyn Fn() -> Value,
+) -> bool {
+    st.eval();
+    st.count(&format!("search_{}", metric_name(tags.metric)));
+    st.count(&format!("search_{}", strategy_name(tags.strategy)));
+    st.count(&format!("search_q_{what}"));
+    let fail = |st: &mut Stats, sig: &str, d: Value| {
+        st.violation(
+            format!("C12/search/{sig}"),
+            json!({"what": d, "query_kind": what, "query": short_vec(q), "k": k,
+                   "metric": metric_name(tags.metric), "result": format!("{res:?}"),
+                   "live": copy.keys().collect::<Vec<_>>(), "context": ctx()}),
+        );
+    };
+    let r = match res {
+        Ok(r) => r,
+        Err(e) => {
+            // a finite query of the right dimension on an uncorrupted index (the repo's own tests
+            // state that even a concurrent entry-point removal must not surface as an error)
+            fail(st, "error_on_valid_query", json!(format!("{e:?}")));
+            return false;
+        }
+    };
+    if r.len() > k {
+        fail(st, "more_than_k", json!({"len": r.len()}));
+        return false;
+    }
+    if k >= 1 && !copy.is_empty() && r.is_empty() {
+        // the entry point is always part of the beam: a live index cannot answer with nothing
+        fail(st, "no_result_on_live_index", json!(null));
+        return false;
+    }
+    let mut seen = BTreeSet::new();
+    for (id, _) in r {
+        if !seen.insert(*id) {
+            fail(st, "duplicate_id", json!({"id": id}));
+            return false;
+        }
+        if !copy.contains_key(id) {
+            let sig = if ever.contains(id) { "dead_id_returned" } else { "unknown_id_returned" };
+            fail(st, sig, json!({"id": id}));
+            return false;
+        }
+    }
+    let oracles: Vec<Oracle> = r.iter().map(|(id, _)| oracle(tags.metric, q, &copy[id])).collect();
+    if oracles.iter().any(|o| o.undefined) {
+        st.count("search_metric_undefined_for_input");
+        return true;
+    }
+    for ((id, d), o) in r.iter().zip(&oracles) {
+        if !d.is_finite() {
+            fail(st, "non_finite_distance", json!({"id": id, "reported": format!("{d}"), "expected": o.d}));
+            return false;
+        }
+        st.count("oracle_distance_value");
+        if (*d as f64 - o.d).abs() > o.tol {
+            fail(st, "distance_mismatch", json!({"id": id, "reported": d, "expected": o.d, "tolerance": o.tol,
+                "stored_vector": short_vec(&copy[id])}));
+            return false;
+        }
+    }
+    for w in r.windows(2) {
+        if w[0].1 > w[1].1 {
+            fail(st, "not_distance_ordered", json!({"pair": [w[0], w[1]]}));
+            return false;
+        }
+    }
+    if r.len() >= 2 {
+        st.count("oracle_order_multi");
+    }
+    true
+}
+
+// ---------------------------------------------------------------------------------------------
+// generators
+
+#[derive(Clone, Copy, Debug)]
+enum VecKind {
+    Unit,
+    Signed,
+    Lattice,
+    Clustered,
+    Wide,
+}
+
+struct Gen {
+    dim: usize,
+    kind: VecKind,
+    centers: Vec<Vec<f32>>,
+}
+
+impl Gen {
+    fn new(rng: &mut Rng, dim: usize) -> Gen {
+        let kind = *rng.pick(&[VecKind::Unit, VecKind::Signed, VecKind::Lattice, VecKind::Clustered, VecKind::Wide]);
+        let centers = (0..3).map(|_| (0..dim).map(|_| rng.f32() * 4.0 - 2.0).collect()).collect();
+        Gen { dim, kind, centers }
+    }
+
+    fn vector(&self, rng: &mut Rng) -> Vec<f32> {
+        match self.kind {
+            VecKind::Unit => (0..self.dim).map(|_| rng.f32()).collect(),
+            VecKind::Signed => (0..self.dim).map(|_| rng.f32() * 2.0 - 1.0).collect(),
+            // few distinct points: exact duplicates and exact distance ties
+            VecKind::Lattice => (0..self.dim).map(|_| rng.irange(-2, 2) as f32).collect(),
+            // noise below the bf16 resolution of the centre: near-duplicates collapse when stored
+            VecKind::Clustered => {
+                let c = rng.pick(&self.centers).clone();
+                c.iter().map(|x| x + (rng.f32() - 0.5) * 2e-2).collect()
+            }
+            VecKind::Wide => (0..self.dim)
+                .map(|_| {
+                    let mag = 10f32.powf(rng.f32() * 6.0 - 3.0);
+                    if rng.bool() { mag } else { -mag }
+                })
+                .collect(),
+        }
+    }
+
+    /// A vector to store: mostly in-distribution; sometimes all-zero, a duplicate of a stored one,
+    /// or one of huge (but f32-safe) norm.
+    fn stored(&self, rng: &mut Rng, model: &Model) -> Vec<f32> {
+        match rng.below(40) {
+            0 | 1 => vec![0.0; self.dim],
+            2..=4 if !model.is_empty() => {
+                let ids: Vec<&u64> = model.keys().collect();
+                model[*rng.pick(&ids)].clone()
+            }
+            5 => self.huge(rng),
+            _ => self.vector(rng),
+        }
+    }
+
+    fn huge(&self, rng: &mut Rng) -> Vec<f32> {
+        (0..self.dim).map(|_| (rng.f32() * 2.0 - 1.0) * 1e15).collect()
+    }
+}
+
+fn gen_cfg(rng: &mut Rng) -> HnswConfig {
+    HnswConfig {
+        dimension: *rng.pick(&[2usize, 3, 8, 32, 64]),
+        max_layers: *rng.pick(&[1u8, 2, 4, 16, 16]),
+        max_connections: rng.range(2, 8) as u8,
+        ef_construction: *rng.pick(&[1usize, 4, 8, 40]),
+        ef_search: *rng.pick(&[1usize, 4, 16, 64, 64]),
+        distance_metric: *rng.pick(&METRICS),
+        scale_factor: *rng.pick(&[None, None, Some(2.0), Some(0.5)]),
+        select_neighbors_strategy: *rng.pick(&[SelectNeighborsStrategy::Simple, SelectNeighborsStrategy::Heuristic]),
+        reconnect_on_delete: rng.bool(),
+    }
+}
+
+fn cfg_json(c: &HnswConfig) -> Value {
+    json!({"dimension": c.dimension, "max_layers": c.max_layers, "M": c.max_connections,
+           "ef_construction": c.ef_construction, "ef_search": c.ef_search,
+           "metric": metric_name(c.distance_metric), "scale_factor": c.scale_factor,
+           "strategy": strategy_name(c.select_neighbors_strategy),
+           "reconnect_on_delete": c.reconnect_on_delete})
+}
+
+fn id_pool(rng: &mut Rng) -> Vec<u64> {
+    let n = *rng.pick(&[6u64, 16, 16, 48]);
+    // id 0 (the "unset entry point" value), dense small ids, ids beyond 32 bits (second Treemap
+    // container) and the extreme
+    let mut v: Vec<u64> = (0..n - 2).collect();
+    v.push((1 << 32) | 7);
+    v.push(u64::MAX);
+    v
+}
+
+fn dump_graph(idx: &HnswIndex) -> Value {
+    let mut ids = idx.node_ids();
+    ids.truncate(64);
+    let nodes: Vec<Value> = ids
+        .iter()
+        .map(|id| {
+            idx.get_node_with(*id, |n| {
+                json!({"id": n.id, "layer": n.layer,
+                       "neighbors": n.neighbors.iter().map(|l| l.iter().map(|(i, _)| *i).collect::<Vec<_>>()).collect::<Vec<_>>()})
+            })
+            .unwrap_or(json!({"id": id, "node": "missing"}))
+        })
+        .collect();
+    json!(nodes)
+}
+
+// ---------------------------------------------------------------------------------------------
+// persistence through the callback API with a recorded write sequence (as the production wrapper
+// rs/anda_db/src/index/hnsw.rs drives it: flush_with(nodes.., ids, metadata) and, only after
+// success, purge_removed_nodes)
+
+#[derive(Clone, Debug)]
+enum Write {
+    Node(u64, Vec<u8>),
+    Ids(Vec<u8>),
+    Meta(Vec<u8>),
+    Delete(u64),
+}
+
+#[derive(Clone, Default)]
+struct Disk {
+    nodes: BTreeMap<u64, Vec<u8>>,
+    ids: Option<Vec<u8>>,
+    meta: Option<Vec<u8>>,
+}
+
+impl Disk {
+    fn apply(&mut self, w: &Write) {
+        match w {
+            Write::Node(id, d) => {
+                self.nodes.insert(*id, d.clone());
+            }
+            Write::Ids(d) => self.ids = Some(d.clone()),
+            Write::Meta(d) => self.meta = Some(d.clone()),
+            Write::Delete(id) => {
+                self.nodes.remove(id);
+            }
+        }
+    }
+}
+
+fn describe_write(w: &Write) -> String {
+    match w {
+        Write::Node(id, d) => format!("node {id} ({}B)", d.len()),
+        Write::Ids(d) => format!("ids ({}B)", d.len()),
+        Write::Meta(d) => format!("metadata ({}B)", d.len()),
+        Write::Delete(id) => format!("delete node {id}"),
+    }
+}
+
+struct FlushOut {
+    result: Result<bool, String>,
+    writes: Vec<Write>,
+    /// the injected failure actually fired
+    fired: bool,
+    /// the in-flight hook actually ran
+    mid_fired: bool,
+}
+
+/// One production-style flush against a recorder. `fail_at`: the i-th write (0-based; nodes, ids,
+/// metadata) returns an error instead of being stored. `mid`: (i, hook) - the hook runs when the
+/// i-th write is issued (mutations arriving while the flush does its I/O).
+fn flush_recorded(idx: &HnswIndex, now: u64, fail_at: Option<usize>, mid: Option<(usize, &dyn Fn())>) -> FlushOut {
+    let log = RefCell::new(Vec::<Write>::new());
+    let n = Cell::new(0usize);
+    let fired = Cell::new(false);
+    let mid_fired = Cell::new(false);
+    let step = |w: Write| -> bool {
+        let i = n.get();
+        n.set(i + 1);
+        if let Some((at, hook)) = &mid {
+            if *at == i {
+                mid_fired.set(true);
+                hook();
+            }
+        }
+        if fail_at == Some(i) {
+            fired.set(true);
+            false
+        } else {
+            log.borrow_mut().push(w);
+            true
+        }
+    };
+    let r = drive(idx.flush_with(
+        now,
+        |id: u64, data: Vec<u8>| {
+            let ok = step(Write::Node(id, data));
+            async move { if ok { Ok(true) } else { Err("injected node write failure".into()) } }
+        },
+        |data: Vec<u8>| {
+            let ok = step(Write::Ids(data));
+            async move { if ok { Ok(()) } else { Err("injected ids write failure".into()) } }
+        },
+        |data: Vec<u8>| {
+            let ok = step(Write::Meta(data));
+            async move { if ok { Ok(()) } else { Err("injected metadata write failure".into()) } }
+        },
+    ));
+    let result = match r {
+        Err(e) => Err(format!("{e:?}")),
+        Ok(saved) => {
+            // the wrapper purges only after flush_with returned success
+            let p = drive(idx.purge_removed_nodes(async |id: u64| {
+                log.borrow_mut().push(Write::Delete(id));
+                Ok(true)
+            }));
+            match p {
+                Ok(()) => Ok(saved),
+                Err(e) => Err(format!("purge: {e:?}")),
+            }
+        }
+    };
+    FlushOut { result, writes: log.into_inner(), fired: fired.get(), mid_fired: mid_fired.get() }
+}
+
+fn load(disk: &Disk) -> Result<HnswIndex, String> {
+    let (Some(meta), Some(ids)) = (&disk.meta, &disk.ids) else {
+        return Err("metadata or ids object absent".into());
+    };
+    drive(HnswIndex::load_all(&meta[..], &ids[..], async |id: u64| Ok(disk.nodes.get(&id).cloned())))
+        .map_err(|e| format!("{e:?}"))
+}
+
+fn stored_vector(idx: &HnswIndex, id: u64) -> Option<Vec<f32>> {
+    idx.get_node_with(id, |n| n.vector.iter().map(|b| b.to_f32()).collect()).ok()
+}
+
+/// New index + what `Hnsw::new` of the wrapper does: persist the empty ids and metadata.
+fn create_index(cfg: &HnswConfig) -> Result<(HnswIndex, Disk), String> {
+    let idx = HnswIndex::try_new("c12".to_string(), Some(cfg.clone())).map_err(|e| format!("{e:?}"))?;
+    let out = flush_recorded(&idx, 1, None, None);
+    out.result?;
+    let mut disk = Disk::default();
+    for w in &out.writes {
+        disk.apply(w);
+    }
+    Ok((idx, disk))
+}
+
+// ---------------------------------------------------------------------------------------------
+// monitor (1): audit of an index against the harness copy after an operation
+
+/// Extra queries that target what the last operation did.
+#[derive(Default)]
+struct Focus {
+    /// (vector, evidence label)
+    queries: Vec<(Vec<f32>, &'static str)>,
+}
+
+struct Hist {
+    /// a removal happened at some point of this index's life (graph may be legitimately
+    /// disconnected when reconnect_on_delete is off)
+    had_removal: bool,
+}
+
+/// Returns false when a violation was recorded.
+#[allow(clippy::too_many_arguments)]
+fn audit(
+    idx: &HnswIndex,
+    model: &Model,
+    ever: &BTreeSet<u64>,
+    graveyard: &Model,
+    cfg: &HnswConfig,
+    g: &Gen,
+    hist: &Hist,
+    focus: &Focus,
+    rng: &mut Rng,
+    st: &mut Stats,
+    light: bool,
+    ctx: &dyn Fn() -> Value,
+) -> bool {
+    let tags = Tags { metric: cfg.distance_metric, strategy: cfg.select_neighbors_strategy };
+    let n = model.len();
+    // the graph of the audited index is captured only when a violation is reported
+    let outer = ctx;
+    let ctx = &|| {
+        let mut c = outer();
+        c["graph_of_audited_index"] = dump_graph(idx);
+        c
+    };
+    // counts
+    let (len, ne) = (idx.len(), idx.stats().num_elements);
+    st.count("oracle_len");
+    if len != n || ne != n as u64 {
+        st.violation("C12/len", json!({"len": len, "num_elements": ne, "live": n, "context": ctx()}));
+        return false;
+    }
+    let ids: Vec<u64> = idx.node_ids();
+    if !ids.iter().eq(model.keys()) {
+        st.violation("C12/node_ids", json!({"node_ids": ids, "live": model.keys().collect::<Vec<_>>(), "context": ctx()}));
+        return false;
+    }
+    // what is stored is what was inserted (bf16-rounded)
+    for (id, v) in model {
+        st.count("oracle_stored_vector");
+        let got = stored_vector(idx, *id);
+        if got.as_ref() != Some(v) {
+            st.violation("C12/stored_vector", json!({"id": id, "stored": got.map(|v| short_vec(&v)),
+                "expected": short_vec(v), "context": ctx()}));
+            return false;
+        }
+    }
+    // queries
+    let mut queries: Vec<(Vec<f32>, &'static str, Option<u64>)> =
+        focus.queries.iter().map(|(v, l)| (v.clone(), *l, None)).collect();
+    let live: Vec<u64> = model.keys().copied().collect();
+    for _ in 0..if light { 1 } else { 2 } {
+        if !live.is_empty() {
+            let id = *rng.pick(&live);
+            queries.push((model[&id].clone(), "stored", Some(id)));
+        }
+    }
+    if !graveyard.is_empty() {
+        let dead: Vec<&u64> = graveyard.keys().collect();
+        queries.push((graveyard[*rng.pick(&dead)].clone(), "removed_id_probe", None));
+    }
+    queries.push((g.vector(rng), "random", None));
+    if !light || rng.bool() {
+        match rng.below(5) {
+            0 | 1 => queries.push((vec![0.0; g.dim], "ood_zero", None)),
+            2 | 3 => queries.push((g.huge(rng), "ood_huge_norm", None)),
+            // f32 overflow inside the kernel: the metric is undefined there; only the
+            // distance-independent clauses are judged
+            _ => queries.push(((0..g.dim).map(|_| if rng.bool() { 3.0e38 } else { -3.0e38 }).collect(), "ood_overflow", None)),
+        }
+    }
+    let mut ks: Vec<usize> = vec![1, 2, n, n + 1];
+    if rng.chance(1, 8) {
+        ks.push(0);
+    }
+    ks.sort_unstable();
+    ks.dedup();
+    for (q, label, self_id) in &queries {
+        for &k in &ks {
+            if light && k == 2 {
+                continue;
+            }
+            // both entry points of the API; the bf16 one only for queries it can represent
+            let exact_bf16 = round_bf16(q) == *q;
+            let res = if exact_bf16 && rng.chance(1, 3) {
+                st.count("search_via_bf16_api");
+                idx.search(&to_bf16(q), k)
+            } else {
+                idx.search_f32(q, k)
+            };
+            if k == 0 {
+                st.count("search_k0");
+            }
+            if !judge_search(&res, q, k, model, ever, &tags, label, st, ctx) {
+                return false;
+            }
+            let Ok(r) = &res else { continue };
+            // not promised by the property, only measured: with n <= ef the layer-0 beam returns
+            // everything reachable from its start node
+            if let Some(sid) = self_id {
+                if n <= cfg.ef_search.max(k) && k >= n && n > 0 {
+                    st.count("complete_probe");
+                    if r.len() < n {
+                        st.count(if hist.had_removal && !cfg.reconnect_on_delete {
+                            "disconnected_after_removal_without_reconnect"
+                        } else if hist.had_removal {
+                            "disconnected_after_removal_with_reconnect"
+                        } else {
+                            "disconnected_insert_only"
+                        });
+                    }
+                }
+                if k == 1 && n <= cfg.ef_search {
+                    st.count("self_probe");
+                    let zero_self = match cfg.distance_metric {
+                        DistanceMetric::InnerProduct => false,
+                        DistanceMetric::Cosine => q.iter().any(|x| *x != 0.0),
+                        _ => true,
+                    };
+                    if zero_self {
+                        let hit = r.first().map(|(id, d)| id == sid || d.abs() <= 1e-3).unwrap_or(false);
+                        st.count(if hit {
+                            "self_hit"
+                        } else if hist.had_removal && !cfg.reconnect_on_delete {
+                            "self_miss_after_removal_without_reconnect"
+                        } else {
+                            "self_miss_other"
+                        });
+                    }
+                }
+            }
+        }
+    }
+    true
+}
+
+// ---------------------------------------------------------------------------------------------
+// monitors (1)+(2): sequential histories with flush crash prefixes
+
+#[derive(Clone, Debug)]
+enum Op {
+    /// (id, raw f32 vector, through the bf16 API)
+    Insert(u64, Vec<f32>, bool),
+    Remove(u64),
+    /// remove + insert of the same id with a new vector
+    Reinsert(u64, Vec<f32>),
+    /// (id, 0 = NaN component, 1 = infinite component, 2 = wrong dimension)
+    InvalidInsert(u64, u8),
+    FlushReload,
+    FlushKeep,
+}
+
+fn op_name(op: &Op) -> String {
+    match op {
+        Op::Insert(id, v, b) => format!("insert{}({id}, {})", if *b { "_bf16" } else { "_f32" }, short_vec(v)),
+        Op::Remove(id) => format!("remove({id})"),
+        Op::Reinsert(id, v) => format!("reinsert({id}, {})", short_vec(v)),
+        Op::InvalidInsert(id, k) => format!("invalid_insert({id}, kind {k})"),
+        Op::FlushReload => "flush+reload".into(),
+        Op::FlushKeep => "flush".into(),
+    }
+}
+
+fn top_layer_id(idx: &HnswIndex, model: &Model) -> Option<u64> {
+    model.keys().copied().max_by_key(|id| idx.get_node_with(*id, |n| n.layer).unwrap_or(0))
+}
+
+fn gen_op(rng: &mut Rng, pool: &[u64], model: &Model, g: &Gen, idx: &HnswIndex) -> Op {
+    let live: Vec<u64> = model.keys().copied().collect();
+    let dead: Vec<u64> = pool.iter().copied().filter(|i| !model.contains_key(i)).collect();
+    match rng.weighted(&[34, 4, 14, 3, 10, 6, 2, 8, 5]) {
+        0 if !dead.is_empty() => Op::Insert(*rng.pick(&dead), g.stored(rng, model), rng.chance(1, 3)),
+        1 if !live.is_empty() => Op::Insert(*rng.pick(&live), g.stored(rng, model), false), // duplicate id
+        2 if !live.is_empty() => Op::Remove(*rng.pick(&live)),
+        3 if !dead.is_empty() => Op::Remove(*rng.pick(&dead)), // missing id
+        4 if !live.is_empty() => Op::Reinsert(*rng.pick(&live), g.stored(rng, model)),
+        // the node on the highest layer: usually the entry point
+        5 if !live.is_empty() => Op::Remove(top_layer_id(idx, model).unwrap()),
+        6 => Op::InvalidInsert(*rng.pick(pool), rng.below(3) as u8),
+        7 => Op::FlushReload,
+        8 => Op::FlushKeep,
+        _ if !dead.is_empty() => Op::Insert(*rng.pick(&dead), g.stored(rng, model), false),
+        _ => Op::Remove(*rng.pick(&live)),
+    }
+}
+
+fn do_insert(idx: &HnswIndex, id: u64, v: &[f32], via_bf16: bool, now: u64) -> Result<(), HnswError> {
+    if via_bf16 { idx.insert(id, to_bf16(v), now) } else { idx.insert_f32(id, v.to_vec(), now) }
+}
+
+struct SeqState {
+    cfg: HnswConfig,
+    pool: Vec<u64>,
+    g: Gen,
+    idx: HnswIndex,
+    model: Model,
+    disk: Disk,
+    /// model at the last committed flush (metadata write landed)
+    committed: Model,
+    /// ids inserted or removed since that commit
+    touched: BTreeSet<u64>,
+    ever: BTreeSet<u64>,
+    /// last vector of ids that are dead now
+    graveyard: Model,
+    hist: Hist,
+    now: u64,
+}
+
+/// What a crash state may / must contain.
+struct Expect<'a> {
+    /// a loaded id must carry the vector it has in one of these
+    versions: Vec<&'a Model>,
+    /// ids that must be present with exactly this vector
+    must: Model,
+    /// Some((m, may_miss)): the loaded content is exactly m, except that ids of may_miss may be absent
+    exact: Option<(&'a Model, BTreeSet<u64>)>,
+    after_commit: bool,
+}
+
+/// Checks one crash state. Returns the loaded index when everything held.
+fn check_crash_state(
+    s: &SeqState,
+    d: &Disk,
+    ex: &Expect,
+    rng: &mut Rng,
+    st: &mut Stats,
+    ctx: &dyn Fn() -> Value,
+) -> Option<HnswIndex> {
+    let fail = |st: &mut Stats, sig: &str, v: Value| {
+        st.violation(format!("C12/crash_prefix/{sig}"), json!({"what": v, "after_commit": ex.after_commit, "context": ctx()}));
+    };
+    let loaded = match load(d) {
+        Ok(i) => i,
+        Err(e) => {
+            fail(st, "load_error", json!(e));
+            return None;
+        }
+    };
+    let ids: Vec<u64> = loaded.node_ids();
+    if loaded.len() != ids.len() || loaded.stats().num_elements != ids.len() as u64 {
+        fail(st, "len", json!({"len": loaded.len(), "num_elements": loaded.stats().num_elements, "node_ids": ids}));
+        return None;
+    }
+    let mut copy = Model::new();
+    for id in &ids {
+        // every id the loaded index claims has a decodable node ...
+        let Some(v) = stored_vector(&loaded, *id) else {
+            fail(st, "id_without_node", json!({"id": id}));
+            return None;
+        };
+        // ... that is neither a resurrected id (removal committed by an earlier completed flush,
+        // never re-inserted) nor an unknown one ...
+        if !ex.versions.iter().any(|m| m.contains_key(id)) {
+            let sig = if s.ever.contains(id) { "removed_id_reappears" } else { "unknown_id" };
+            fail(st, sig, json!({"id": id}));
+            return None;
+        }
+        // ... and carries a vector this id had at the last commit or has in the flushed snapshot
+        if !ex.versions.iter().any(|m| m.get(id) == Some(&v)) {
+            fail(st, "vector_of_no_version", json!({"id": id, "loaded": short_vec(&v),
+                "versions": ex.versions.iter().map(|m| m.get(id).map(|v| short_vec(v))).collect::<Vec<_>>()}));
+            return None;
+        }
+        copy.insert(*id, v);
+    }
+    // ids committed earlier and not touched since are still there, unchanged
+    for (id, v) in &ex.must {
+        if copy.get(id) != Some(v) {
+            fail(st, "committed_id_lost", json!({"id": id, "loaded": copy.get(id).map(|v| short_vec(v))}));
+            return None;
+        }
+    }
+    // a flush whose commit record landed persisted exactly its snapshot of the live set
+    if let Some((m, may_miss)) = &ex.exact {
+        let ok = copy.iter().all(|(id, v)| m.get(id) == Some(v))
+            && m.keys().all(|id| copy.contains_key(id) || may_miss.contains(id));
+        if !ok {
+            fail(st, "committed_flush_incomplete", json!({"loaded_ids": ids, "flushed_ids": m.keys().collect::<Vec<_>>(),
+                "removed_while_flushing": may_miss}));
+            return None;
+        }
+        if copy.len() < m.len() {
+            st.count("crash_state_with_missing_blob_repaired_by_load");
+        }
+    }
+    // soundness of the loaded index against the copy restricted to what it claims; probes aim at
+    // ids it does not claim
+    let mut focus = Focus::default();
+    for (id, v) in s.model.iter().chain(s.committed.iter()).chain(s.graveyard.iter()) {
+        if !copy.contains_key(id) && focus.queries.len() < 3 {
+            focus.queries.push((v.clone(), "crash_absent_id_probe"));
+        }
+    }
+    let mut ever = s.ever.clone();
+    ever.extend(s.model.keys());
+    let grave = Model::new();
+    if !audit(&loaded, &copy, &ever, &grave, &s.cfg, &s.g, &s.hist, &focus, rng, st, true, ctx) {
+        return None;
+    }
+    Some(loaded)
+}
+
+/// "Re-indexing of the unflushed documents": bring a recovered index back to the live set.
+fn reindex(loaded: &HnswIndex, model: &Model, now: u64) -> Result<(usize, usize), String> {
+    let (mut ins, mut rem) = (0, 0);
+    for id in loaded.node_ids() {
+        let stale = match model.get(&id) {
+            None => true,
+            Some(v) => stored_vector(loaded, id).as_ref() != Some(v),
+        };
+        if stale {
+            if !loaded.remove(id, now) {
+                return Err(format!("remove({id}) of a claimed id returned false"));
+            }
+            rem += 1;
+        }
+    }
+    let have: BTreeSet<u64> = loaded.node_ids().into_iter().collect();
+    for (id, v) in model {
+        if !have.contains(id) {
+            loaded.insert_f32(*id, v.clone(), now).map_err(|e| format!("insert({id}): {e:?}"))?;
+            ins += 1;
+        }
+    }
+    Ok((ins, rem))
+}
+
+/// Mutations performed while a flush is doing its I/O (documented: "Mutations can continue while
+/// I/O is in flight, but they cannot leak into this immutable image").
+#[derive(Clone, Debug)]
+enum MidOp {
+    Insert(u64, Vec<f32>),
+    Remove(u64),
+}
+
+fn gen_mid_ops(s: &SeqState, rng: &mut Rng) -> Vec<MidOp> {
+    let mut m = s.model.clone();
+    let mut ops = vec![];
+    for _ in 0..1 + rng.usize(2) {
+        let live: Vec<u64> = m.keys().copied().collect();
+        let dead: Vec<u64> = s.pool.iter().copied().filter(|i| !m.contains_key(i)).collect();
+        match rng.below(3) {
+            0 if !dead.is_empty() => {
+                let (id, v) = (*rng.pick(&dead), s.g.stored(rng, &m));
+                m.insert(id, round_bf16(&v));
+                ops.push(MidOp::Insert(id, v));
+            }
+            1 if !live.is_empty() => {
+                let id = *rng.pick(&live);
+                m.remove(&id);
+                ops.push(MidOp::Remove(id));
+            }
+            2 if !live.is_empty() => {
+                // re-insert with a new vector
+                let (id, v) = (*rng.pick(&live), s.g.stored(rng, &m));
+                m.insert(id, round_bf16(&v));
+                ops.push(MidOp::Remove(id));
+                ops.push(MidOp::Insert(id, v));
+            }
+            _ => {}
+        }
+    }
+    ops
+}
+
+/// The flush operation of a history: optional failed attempt, then the recorded flush with every
+/// crash prefix checked. Returns false on a violation.
+fn flush_op(s: &mut SeqState, reload: bool, rng: &mut Rng, st: &mut Stats, ctx: &dyn Fn() -> Value) -> bool {
+    // (a) a flush attempt whose i-th write fails: what landed stays on disk, the index keeps
+    // everything pending and the next flush must commit all of it
+    if rng.chance(1, 4) {
+        let at = rng.usize(6);
+        let out = flush_recorded(&s.idx, s.now, Some(at), None);
+        for w in &out.writes {
+            s.disk.apply(w);
+        }
+        if out.fired {
+            st.count("flush_failed_injected");
+            if out.result.is_ok() {
+                st.violation("C12/flush/error_swallowed", json!({"fail_at": at, "context": ctx()}));
+                return false;
+            }
+            let d = s.disk.clone();
+            let ex = Expect {
+                versions: vec![&s.committed, &s.model],
+                must: s.committed.iter().filter(|(id, _)| !s.touched.contains(id)).map(|(i, v)| (*i, v.clone())).collect(),
+                exact: None,
+                after_commit: false,
+            };
+            if check_crash_state(s, &d, &ex, rng, st, &|| {
+                let mut c = ctx();
+                c["after_failed_flush_at_write"] = json!(at);
+                c
+            })
+            .is_none()
+            {
+                return false;
+            }
+        } else if out.writes.iter().any(|w| matches!(w, Write::Meta(_))) {
+            // fewer writes than the failure index: this was a complete flush
+            s.committed = s.model.clone();
+            s.touched.clear();
+        }
+    }
+    // (b) the recorded flush; every prefix of its write sequence is a crash state. Without a
+    // reload, a third of the flushes have mutations arriving while a write is in flight.
+    let before = s.disk.clone();
+    let snapshot = s.model.clone();
+    let mid_ops = if !reload && rng.chance(1, 3) { gen_mid_ops(s, rng) } else { vec![] };
+    let mid_at = rng.usize(4);
+    let mid_bad = RefCell::new(Vec::<String>::new());
+    let now = s.now;
+    let out = {
+        let idx = &s.idx;
+        let hook = || {
+            for op in &mid_ops {
+                match op {
+                    MidOp::Insert(id, v) => {
+                        if let Err(e) = idx.insert_f32(*id, v.clone(), now) {
+                            mid_bad.borrow_mut().push(format!("insert({id}) while flushing: {e:?}"));
+                        }
+                    }
+                    MidOp::Remove(id) => {
+                        if !idx.remove(*id, now) {
+                            mid_bad.borrow_mut().push(format!("remove({id}) while flushing returned false"));
+                        }
+                    }
+                }
+            }
+        };
+        flush_recorded(idx, now, None, if mid_ops.is_empty() { None } else { Some((mid_at, &hook)) })
+    };
+    if let Err(e) = &out.result {
+        st.violation("C12/flush/failed", json!({"error": e, "context": ctx()}));
+        return false;
+    }
+    if let Some(b) = mid_bad.borrow().first() {
+        st.violation("C12/return_value/mutation_while_flushing", json!({"what": b, "mid_ops": format!("{mid_ops:?}"), "context": ctx()}));
+        return false;
+    }
+    let mut touched_mid = BTreeSet::new();
+    let mut removed_mid = BTreeSet::new();
+    if out.mid_fired {
+        st.count("flush_with_mutation_in_flight");
+        for op in &mid_ops {
+            match op {
+                MidOp::Insert(id, v) => {
+                    s.model.insert(*id, round_bf16(v));
+                    s.ever.insert(*id);
+                    s.graveyard.remove(id);
+                    touched_mid.insert(*id);
+                }
+                MidOp::Remove(id) => {
+                    if let Some(v) = s.model.remove(id) {
+                        s.graveyard.insert(*id, v);
+                    }
+                    touched_mid.insert(*id);
+                    removed_mid.insert(*id);
+                    s.hist.had_removal = true;
+                }
+            }
+        }
+    }
+    let writes = out.writes;
+    let commit_pos = writes.iter().position(|w| matches!(w, Write::Meta(_)));
+    // documented durable order: nodes -> ids -> metadata -> deletes (counted as shape evidence)
+    st.set("flush_write_shapes", vcore::fnv_str(&writes.iter().map(|w| match w {
+        Write::Node(..) => 'n',
+        Write::Ids(_) => 'i',
+        Write::Meta(_) => 'm',
+        Write::Delete(_) => 'd',
+    }).collect::<String>()));
+    st.count("flushes_recorded");
+    st.max("max_flush_writes", writes.len() as u64);
+    let must: Model = s
+        .committed
+        .iter()
+        .filter(|(id, _)| !s.touched.contains(id) && !touched_mid.contains(id))
+        .map(|(i, v)| (*i, v.clone()))
+        .collect();
+    for j in 0..=writes.len() {
+        let mut d = before.clone();
+        for w in &writes[..j] {
+            d.apply(w);
+        }
+        let after_commit = matches!(commit_pos, Some(c) if j > c);
+        st.count("flush_crash_prefixes");
+        st.count(if after_commit {
+            "crash_prefix_after_commit"
+        } else if writes[..j].iter().any(|w| matches!(w, Write::Ids(_))) {
+            "crash_prefix_between_ids_and_metadata"
+        } else if j > 0 {
+            "crash_prefix_within_nodes"
+        } else {
+            "crash_prefix_nothing_written"
+        });
+        if writes[..j].iter().any(|w| matches!(w, Write::Delete(_))) && j < writes.len() {
+            st.count("crash_prefix_within_purge");
+        }
+        let pctx = || {
+            let mut c = ctx();
+            c["crash_prefix"] = json!(j);
+            c["writes"] = json!(writes.iter().map(describe_write).collect::<Vec<_>>());
+            if out.mid_fired {
+                c["mutations_while_write_in_flight"] = json!({"at_write": mid_at, "ops": format!("{mid_ops:?}")});
+            }
+            c
+        };
+        let ex = Expect {
+            versions: vec![&s.committed, &snapshot],
+            must: must.clone(),
+            exact: after_commit.then(|| (&snapshot, removed_mid.clone())),
+            after_commit,
+        };
+        let Some(loaded) = check_crash_state(s, &d, &ex, rng, st, &pctx) else {
+            return false;
+        };
+        {
+            let l: BTreeSet<u64> = loaded.node_ids().into_iter().collect();
+            st.count(if l.iter().eq(snapshot.keys()) && l.iter().eq(s.committed.keys()) {
+                "crash_idset_old_equals_new"
+            } else if l.iter().eq(snapshot.keys()) {
+                "crash_idset_new"
+            } else if l.iter().eq(s.committed.keys()) {
+                "crash_idset_old"
+            } else {
+                "crash_idset_other"
+            });
+        }
+        // the recovered index keeps working: sweep orphan blobs as the wrapper's bootstrap does,
+        // re-index what is missing, audit against the live set, flush completely, reload, compare
+        if rng.chance(1, 3) {
+            let referenced: BTreeSet<u64> = loaded.node_ids().into_iter().chain(loaded.removed_node_ids()).collect();
+            let mut d2 = d.clone();
+            let n_before = d2.nodes.len();
+            d2.nodes.retain(|id, _| referenced.contains(id));
+            st.add("orphan_blobs_swept", (n_before - d2.nodes.len()) as u64);
+            match reindex(&loaded, &s.model, s.now + 1) {
+                Err(e) => {
+                    st.violation("C12/crash_prefix/reindex_failed", json!({"error": e, "context": pctx()}));
+                    return false;
+                }
+                Ok((ins, rem)) => {
+                    st.add("reindexed_inserts", ins as u64);
+                    st.add("reindexed_removes", rem as u64);
+                }
+            }
+            let mut ever = s.ever.clone();
+            ever.extend(s.committed.keys());
+            let hist = Hist { had_removal: true };
+            if !audit(&loaded, &s.model, &ever, &s.graveyard, &s.cfg, &s.g, &hist, &Focus::default(), rng, st, true, &pctx) {
+                return false;
+            }
+            let out2 = flush_recorded(&loaded, s.now + 2, None, None);
+            if let Err(e) = &out2.result {
+                st.violation("C12/crash_prefix/flush_after_recovery_failed", json!({"error": e, "context": pctx()}));
+                return false;
+            }
+            for w in &out2.writes {
+                d2.apply(w);
+            }
+            let ex2 = Expect {
+                versions: vec![&s.model],
+                must: s.model.clone(),
+                exact: Some((&s.model, BTreeSet::new())),
+                after_commit: true,
+            };
+            if check_crash_state(s, &d2, &ex2, rng, st, &|| {
+                let mut c = pctx();
+                c["stage"] = json!("complete flush after recovery + re-indexing");
+                c
+            })
+            .is_none()
+            {
+                return false;
+            }
+            st.count("recovered_reindexed_reflushed");
+        }
+    }
+    for w in &writes {
+        s.disk.apply(w);
+    }
+    if commit_pos.is_some() {
+        s.committed = snapshot;
+        s.touched = touched_mid;
+    } else {
+        s.touched.extend(touched_mid);
+    }
+    if reload {
+        match load(&s.disk) {
+            Ok(i) => s.idx = i,
+            Err(e) => {
+                st.violation("C12/reload_failed", json!({"error": e, "context": ctx()}));
+                return false;
+            }
+        }
+        st.count("reloads");
+    }
+    true
+}
+
+fn seq_case(case: u64, rng: &mut Rng, st: &mut Stats, n_ops: usize) {
+    let cfg = gen_cfg(rng);
+    let pool = id_pool(rng);
+    let g = Gen::new(rng, cfg.dimension);
+    let (idx, disk) = match create_index(&cfg) {
+        Ok(x) => x,
+        Err(e) => {
+            st.violation("C12/create_failed", json!({"config": cfg_json(&cfg), "error": e}));
+            return;
+        }
+    };
+    let mut s = SeqState {
+        cfg: cfg.clone(),
+        pool: pool.clone(),
+        g,
+        idx,
+        model: Model::new(),
+        disk,
+        committed: Model::new(),
+        touched: BTreeSet::new(),
+        ever: BTreeSet::new(),
+        graveyard: Model::new(),
+        hist: Hist { had_removal: false },
+        now: 10,
+    };
+    let mut history: Vec<String> = vec![];
+    let mut kinds = std::collections::HashSet::new();
+    // start half of the cases with a bulk load so that pruning and upper layers are in play
+    let bulk = if rng.bool() { pool.len() * 2 / 3 } else { 0 };
+    for step in 0..n_ops + bulk {
+        let op = if step < bulk {
+            let dead: Vec<u64> = pool.iter().copied().filter(|i| !s.model.contains_key(i)).collect();
+            Op::Insert(*rng.pick(&dead), s.g.stored(rng, &s.model), false)
+        } else {
+            gen_op(rng, &pool, &s.model, &s.g, &s.idx)
+        };
+        s.now += 3;
+        history.push(op_name(&op));
+        let hist_ctx = history.clone();
+        let cfg_ctx = cfg_json(&cfg);
+        let kind = format!("{:?}", s.g.kind);
+        let ctx = move || {
+            json!({"case": case, "config": cfg_ctx, "vector_kind": kind, "history": hist_ctx,
+                   "note": "layer draws come from the crate's thread RNG: a replay re-creates the history, not the layers"})
+        };
+        let mut focus = Focus::default();
+        match &op {
+            Op::Insert(id, v, via) => {
+                let r = do_insert(&s.idx, *id, v, *via, s.now);
+                st.count(if s.model.contains_key(id) { "op_insert_duplicate_id" } else { "op_insert" });
+                let expect_ok = !s.model.contains_key(id);
+                let ok = match &r {
+                    Ok(()) => expect_ok,
+                    Err(HnswError::AlreadyExists { id: e, .. }) => !expect_ok && e == id,
+                    Err(_) => false,
+                };
+                if !ok {
+                    st.violation("C12/return_value/insert", json!({"op": op_name(&op), "got": format!("{r:?}"),
+                        "id_was_live": !expect_ok, "context": ctx()}));
+                    return;
+                }
+                if expect_ok {
+                    let rv = round_bf16(v);
+                    focus.queries.push((rv.clone(), "just_inserted"));
+                    s.model.insert(*id, rv);
+                    s.ever.insert(*id);
+                    s.graveyard.remove(id);
+                    s.touched.insert(*id);
+                }
+            }
+            Op::Remove(id) => {
+                let r = s.idx.remove(*id, s.now);
+                let expect = s.model.contains_key(id);
+                st.count(if expect { "op_remove" } else { "op_remove_missing_id" });
+                if r != expect {
+                    st.violation("C12/return_value/remove", json!({"op": op_name(&op), "got": r, "expected": expect, "context": ctx()}));
+                    return;
+                }
+                if let Some(v) = s.model.remove(id) {
+                    focus.queries.push((v.clone(), "removed_id_probe"));
+                    s.graveyard.insert(*id, v);
+                    s.touched.insert(*id);
+                    s.hist.had_removal = true;
+                }
+            }
+            Op::Reinsert(id, v) => {
+                st.count("op_reinsert");
+                let r1 = s.idx.remove(*id, s.now);
+                let r2 = s.idx.insert_f32(*id, v.clone(), s.now + 1);
+                if !r1 || r2.is_err() {
+                    st.violation("C12/return_value/reinsert", json!({"op": op_name(&op), "remove": r1, "insert": format!("{r2:?}"), "context": ctx()}));
+                    return;
+                }
+                let rv = round_bf16(v);
+                let old = s.model.insert(*id, rv.clone()).unwrap();
+                focus.queries.push((old, "reinsert_probe_old_vector"));
+                focus.queries.push((rv, "reinsert_probe_new_vector"));
+                s.touched.insert(*id);
+                s.hist.had_removal = true;
+            }
+            Op::InvalidInsert(id, k) => {
+                st.count("op_insert_invalid");
+                let mut v = s.g.vector(rng);
+                match k {
+                    0 => v[0] = f32::NAN,
+                    1 => v[0] = f32::INFINITY,
+                    _ => v.push(1.0),
+                }
+                // documented: rejected (Generic / DimensionMismatch); a live id is left untouched
+                let r = s.idx.insert_f32(*id, v, s.now);
+                if r.is_ok() {
+                    st.violation("C12/return_value/invalid_insert_accepted", json!({"op": op_name(&op), "context": ctx()}));
+                    return;
+                }
+                // the matching rejections on the query side
+                let mut q = s.g.vector(rng);
+                q[0] = f32::NAN;
+                if s.idx.search_f32(&q, 3).is_ok() || s.idx.search_f32(&vec![0.5; cfg.dimension + 1], 3).is_ok() {
+                    st.violation("C12/search/invalid_query_accepted", json!({"context": ctx()}));
+                    return;
+                }
+                st.count("invalid_query_rejected");
+            }
+            Op::FlushReload | Op::FlushKeep => {
+                st.count(if matches!(op, Op::FlushReload) { "op_flush_reload" } else { "op_flush_keep" });
+                if !flush_op(&mut s, matches!(op, Op::FlushReload), rng, st, &ctx) {
+                    return;
+                }
+            }
+        }
+        kinds.insert(std::mem::discriminant(&op));
+        let light = step < bulk && step + 1 != bulk;
+        if !audit(&s.idx, &s.model, &s.ever, &s.graveyard, &s.cfg, &s.g, &s.hist, &focus, rng, st, light, &ctx) {
+            return;
+        }
+        st.max("max_live_vectors", s.model.len() as u64);
+    }
+    st.set("configs", vcore::hash_debug(&cfg_json(&cfg).to_string()));
+    st.set("dims_x_metric_x_strategy_x_reconnect", vcore::fnv_str(&format!(
+        "{} {} {} {}", cfg.dimension, metric_name(cfg.distance_metric),
+        strategy_name(cfg.select_neighbors_strategy), cfg.reconnect_on_delete)));
+    if kinds.len() >= 4 {
+        st.distinct(vcore::fnv_str(&format!("{}|{}", cfg_json(&cfg), history.join(";"))));
+    }
+    st.sample(|| json!({"monitor": "sequential+crash_prefixes", "config": cfg_json(&cfg),
+        "vector_kind": format!("{:?}", s.g.kind), "ops": history.iter().take(10).collect::<Vec<_>>()}));
+}
+
+// ---------------------------------------------------------------------------------------------
+// monitor (3): the documented recall workloads of rs/anda_db_hnsw/tests/recall.rs, ported
+// verbatim (same generator, seeds, sizes, configs, f32 brute force, epsilon-tolerant recall@10)
+
+struct SplitMix64(u64);
+
+impl SplitMix64 {
+    fn next_u64(&mut self) -> u64 {
+        self.0 = self.0.wrapping_add(0x9E3779B97F4A7C15);
+        let mut z = self.0;
+        z = (z ^ (z >> 30)).wrapping_mul(0xBF58476D1CE4E5B9);
+        z = (z ^ (z >> 27)).wrapping_mul(0x94D049BB133111EB);
+        z ^ (z >> 31)
+    }
+    fn next_f32(&mut self) -> f32 {
+        (self.next_u64() >> 40) as f32 / (1u64 << 24) as f32
+    }
+    fn next_vector(&mut self, dim: usize) -> Vec<f32> {
+        (0..dim).map(|_| bf16::from_f32(self.next_f32()).to_f32()).collect()
+    }
+}
+
+fn t_distance(metric: DistanceMetric, a: &[f32], b: &[f32]) -> f32 {
+    match metric {
+        DistanceMetric::Euclidean => a.iter().zip(b).map(|(x, y)| (x - y) * (x - y)).sum::<f32>().sqrt(),
+        DistanceMetric::Cosine => {
+            let dot: f32 = a.iter().zip(b).map(|(x, y)| x * y).sum();
+            let na: f32 = a.iter().map(|x| x * x).sum::<f32>().sqrt();
+            let nb: f32 = b.iter().map(|x| x * x).sum::<f32>().sqrt();
+            if na < f32::EPSILON || nb < f32::EPSILON { 1.0 } else { 1.0 - dot / (na * nb) }
+        }
+        DistanceMetric::InnerProduct => -a.iter().zip(b).map(|(x, y)| x * y).sum::<f32>(),
+        DistanceMetric::Manhattan => a.iter().zip(b).map(|(x, y)| (x - y).abs()).sum(),
+    }
+}
+
+fn recall_at_k(metric: DistanceMetric, data: &Model, query: &[f32], results: &[(u64, f32)], k: usize) -> f64 {
+    let mut scored: Vec<(u64, f32)> = data.iter().map(|(id, v)| (*id, t_distance(metric, query, v))).collect();
+    scored.sort_by(|a, b| a.1.partial_cmp(&b.1).unwrap().then(a.0.cmp(&b.0)));
+    scored.truncate(k);
+    let kth = scored.last().map(|(_, d)| *d).unwrap_or(0.0);
+    let truth: Vec<u64> = scored.into_iter().map(|(id, _)| id).collect();
+    let threshold = kth * 1.001 + 1e-6;
+    let hits = results
+        .iter()
+        .take(k)
+        .filter(|(id, _)| truth.contains(id) || data.get(id).is_some_and(|v| t_distance(metric, query, v) <= threshold))
+        .count();
+    hits as f64 / k as f64
+}
+
+struct Bench {
+    index: HnswIndex,
+    data: Model,
+    queries: Vec<Vec<f32>>,
+    cfg: HnswConfig,
+    k: usize,
+    /// every id that was ever in `data`
+    ever: BTreeSet<u64>,
+}
+
+impl Bench {
+    fn config(metric: DistanceMetric, dim: usize) -> HnswConfig {
+        HnswConfig { dimension: dim, distance_metric: metric, ..Default::default() }
+    }
+
+    /// `insert_upto`: only ids 1..=insert_upto are inserted now (the interrupted-flush variants
+    /// insert the rest later); data and queries are generated exactly as in the test.
+    fn build_with(config: HnswConfig, n: usize, num_queries: usize, seed: u64, insert_upto: usize) -> Bench {
+        let dim = config.dimension;
+        let index = HnswIndex::new("recall".to_string(), Some(config.clone()));
+        let mut rng = SplitMix64(seed);
+        let mut data = Model::new();
+        for id in 1..=(n as u64) {
+            let v = rng.next_vector(dim);
+            if id as usize <= insert_upto {
+                index.insert_f32(id, v.clone(), id).expect("insert failed");
+            }
+            data.insert(id, v);
+        }
+        let queries = (0..num_queries).map(|_| rng.next_vector(dim)).collect();
+        let ever = data.keys().copied().collect();
+        Bench { index, data, queries, cfg: config, k: 10, ever }
+    }
+
+    /// Average and minimum recall@k over all queries; every search also goes through the
+    /// soundness judge. None = a violation was recorded.
+    fn measure(&self, index: &HnswIndex, st: &mut Stats, wl: &str) -> Option<(f64, f64)> {
+        let tags = Tags { metric: self.cfg.distance_metric, strategy: self.cfg.select_neighbors_strategy };
+        let mut total = 0.0;
+        let mut min: f64 = 1.0;
+        for query in &self.queries {
+            let res = index.search_f32(query, self.k);
+            if !judge_search(&res, query, self.k, &self.data, &self.ever, &tags, "recall_workload", st,
+                &|| json!({"monitor": "recall", "workload": wl})) {
+                return None;
+            }
+            let r = recall_at_k(self.cfg.distance_metric, &self.data, query, res.as_ref().unwrap(), self.k);
+            total += r;
+            min = min.min(r);
+        }
+        Some((total / self.queries.len() as f64, min))
+    }
+}
+
+/// One statistic of one draw: `value` must be >= `floor`.
+struct Stat {
+    name: &'static str,
+    value: f64,
+    floor: f64,
+}
+
+const WORKLOADS: [&str; 9] = [
+    "euclidean", "cosine", "deletions", "heavy_deletions", "churn", "round_trip",
+    "interrupted_inserts", "interrupted_deletions", "interrupted_churn",
+];
+
+/// margin for the interrupted-flush variants (DESIGN C12, fixed there)
+const INTERRUPTED_MARGIN: f64 = 0.05;
+
+fn full_flush(idx: &HnswIndex, disk: &mut Disk, now: u64) -> Result<(), String> {
+    let out = flush_recorded(idx, now, None, None);
+    out.result?;
+    for w in &out.writes {
+        disk.apply(w);
+    }
+    Ok(())
+}
+
+/// Flush interrupted at a sampled prefix of its write sequence, load what is there.
+fn interrupted_flush_and_load(idx: &HnswIndex, disk: &Disk, now: u64, rng: &mut Rng, st: &mut Stats) -> Result<HnswIndex, String> {
+    let out = flush_recorded(idx, now, None, None);
+    out.result?;
+    let w = out.writes;
+    let ids_pos = w.iter().position(|x| matches!(x, Write::Ids(_))).unwrap_or(w.len());
+    let j = match rng.below(4) {
+        0 => ids_pos.saturating_sub(rng.usize(3)),
+        1 => (ids_pos + rng.usize(3)).min(w.len()),
+        _ => rng.usize(w.len() + 1),
+    };
+    st.count(if j <= ids_pos {
+        "recall_interrupted_before_ids"
+    } else if j <= ids_pos + 1 {
+        "recall_interrupted_between_ids_and_metadata"
+    } else {
+        "recall_interrupted_after_commit"
+    });
+    let mut d = disk.clone();
+    for x in &w[..j] {
+        d.apply(x);
+    }
+    load(&d)
+}
+
+fn recall_draw(wl: &str, rng: &mut Rng, st: &mut Stats) -> Result<Vec<Stat>, String> {
+    use DistanceMetric::*;
+    let none = || "soundness violation during the recall workload".to_string();
+    let mut out = vec![];
+    match wl {
+        "euclidean" => {
+            let b = Bench::build_with(Bench::config(Euclidean, 32), 1000, 50, 42, usize::MAX);
+            let (avg, min) = b.measure(&b.index, st, wl).ok_or_else(none)?;
+            out.push(Stat { name: "euclidean.avg", value: avg, floor: 0.95 });
+            out.push(Stat { name: "euclidean.min", value: min, floor: 0.60 });
+        }
+        "cosine" => {
+            let b = Bench::build_with(Bench::config(Cosine, 24), 800, 40, 7, usize::MAX);
+            let (avg, min) = b.measure(&b.index, st, wl).ok_or_else(none)?;
+            out.push(Stat { name: "cosine.avg", value: avg, floor: 0.95 });
+            out.push(Stat { name: "cosine.min", value: min, floor: 0.60 });
+        }
+        "deletions" => {
+            let mut b = Bench::build_with(Bench::config(Euclidean, 32), 1000, 50, 99, usize::MAX);
+            for id in (1..=1000u64).filter(|id| id % 5 == 0) {
+                if !b.index.remove(id, 2_000) {
+                    return Err(format!("remove({id}) returned false"));
+                }
+                b.data.remove(&id);
+            }
+            let (avg, min) = b.measure(&b.index, st, wl).ok_or_else(none)?;
+            out.push(Stat { name: "deletions.avg", value: avg, floor: 0.90 });
+            out.push(Stat { name: "deletions.min", value: min, floor: 0.50 });
+        }
+        "heavy_deletions" => {
+            let cfg = HnswConfig {
+                dimension: 32,
+                distance_metric: Euclidean,
+                max_connections: 6,
+                ef_construction: 40,
+                ef_search: 40,
+                reconnect_on_delete: true,
+                ..Default::default()
+            };
+            let mut b = Bench::build_with(cfg, 2000, 50, 4242, usize::MAX);
+            let (before, _) = b.measure(&b.index, st, wl).ok_or_else(none)?;
+            for id in (1..=2000u64).filter(|id| id % 2 == 0) {
+                if !b.index.remove(id, 2_000) {
+                    return Err(format!("remove({id}) returned false"));
+                }
+                b.data.remove(&id);
+            }
+            let (avg50, min50) = b.measure(&b.index, st, wl).ok_or_else(none)?;
+            out.push(Stat { name: "heavy.avg50_minus_before", value: avg50 - before, floor: -0.06 });
+            out.push(Stat { name: "heavy.min50", value: min50, floor: 0.50 });
+            for id in (1..=2000u64).filter(|id| id % 2 == 1 && id % 5 != 0) {
+                if !b.index.remove(id, 3_000) {
+                    return Err(format!("remove({id}) returned false"));
+                }
+                b.data.remove(&id);
+            }
+            if b.index.len() != b.data.len() {
+                return Err(format!("len {} != live {}", b.index.len(), b.data.len()));
+            }
+            let (avg80, min80) = b.measure(&b.index, st, wl).ok_or_else(none)?;
+            out.push(Stat { name: "heavy.avg80_minus_before", value: avg80 - before, floor: -0.08 });
+            out.push(Stat { name: "heavy.min80", value: min80, floor: 0.50 });
+        }
+        "churn" | "interrupted_churn" => {
+            let interrupted = wl == "interrupted_churn";
+            let mut b = Bench::build_with(Bench::config(Euclidean, 16), 600, 30, 777, usize::MAX);
+            let mut vr = SplitMix64(0xC0FFEE);
+            let mut disk = Disk::default();
+            for round in 0..5u64 {
+                if interrupted && round == 4 {
+                    full_flush(&b.index, &mut disk, 10_000)?;
+                }
+                let victims: Vec<u64> = (1..=600u64).filter(|id| (id + round) % 3 == 0).collect();
+                for id in &victims {
+                    if !b.index.remove(*id, round) {
+                        return Err(format!("remove({id}) returned false"));
+                    }
+                    b.data.remove(id);
+                }
+                for id in &victims {
+                    let v = vr.next_vector(16);
+                    b.index.insert_f32(*id, v.clone(), round).map_err(|e| format!("re-insert failed: {e:?}"))?;
+                    b.data.insert(*id, v);
+                }
+            }
+            let m = if interrupted { INTERRUPTED_MARGIN } else { 0.0 };
+            let (avg, min) = if interrupted {
+                let loaded = interrupted_flush_and_load(&b.index, &disk, 20_000, rng, st)?;
+                let (i, r) = reindex(&loaded, &b.data, 30_000)?;
+                st.add("recall_reindexed_inserts", i as u64);
+                st.add("recall_reindexed_removes", r as u64);
+                b.measure(&loaded, st, wl).ok_or_else(none)?
+            } else {
+                b.measure(&b.index, st, wl).ok_or_else(none)?
+            };
+            out.push(Stat { name: if interrupted { "interrupted_churn.avg" } else { "churn.avg" }, value: avg, floor: 0.93 - m });
+            out.push(Stat { name: if interrupted { "interrupted_churn.min" } else { "churn.min" }, value: min, floor: 0.60 - m });
+        }
+        "round_trip" => {
+            let b = Bench::build_with(Bench::config(Euclidean, 16), 600, 30, 1234, usize::MAX);
+            let (before, _) = b.measure(&b.index, st, wl).ok_or_else(none)?;
+            let mut disk = Disk::default();
+            full_flush(&b.index, &mut disk, 5_000)?;
+            let reloaded = load(&disk)?;
+            if reloaded.len() != b.index.len() {
+                return Err(format!("reloaded len {} != {}", reloaded.len(), b.index.len()));
+            }
+            let (after, _) = b.measure(&reloaded, st, wl).ok_or_else(none)?;
+            out.push(Stat { name: "round_trip.avg_after", value: after, floor: 0.95 });
+            out.push(Stat { name: "round_trip.neg_abs_change", value: -(before - after).abs(), floor: -0.02 });
+        }
+        // round_trip workload, but the last 40% of the documents are inserted after the last
+        // completed flush and the flush that should persist them is interrupted
+        "interrupted_inserts" => {
+            let b = Bench::build_with(Bench::config(Euclidean, 16), 600, 30, 1234, 360);
+            let mut disk = Disk::default();
+            full_flush(&b.index, &mut disk, 5_000)?;
+            for id in 361..=600u64 {
+                b.index.insert_f32(id, b.data[&id].clone(), id).map_err(|e| format!("{e:?}"))?;
+            }
+            let loaded = interrupted_flush_and_load(&b.index, &disk, 6_000, rng, st)?;
+            let (i, r) = reindex(&loaded, &b.data, 7_000)?;
+            st.add("recall_reindexed_inserts", i as u64);
+            st.add("recall_reindexed_removes", r as u64);
+            let (avg, _) = b.measure(&loaded, st, wl).ok_or_else(none)?;
+            out.push(Stat { name: "interrupted_inserts.avg", value: avg, floor: 0.95 - INTERRUPTED_MARGIN });
+        }
+        // deletions workload, the flush that should persist the deletions is interrupted
+        "interrupted_deletions" => {
+            let mut b = Bench::build_with(Bench::config(Euclidean, 32), 1000, 50, 99, usize::MAX);
+            let mut disk = Disk::default();
+            full_flush(&b.index, &mut disk, 1_500)?;
+            for id in (1..=1000u64).filter(|id| id % 5 == 0) {
+                if !b.index.remove(id, 2_000) {
+                    return Err(format!("remove({id}) returned false"));
+                }
+                b.data.remove(&id);
+            }
+            let loaded = interrupted_flush_and_load(&b.index, &disk, 3_000, rng, st)?;
+            let (i, r) = reindex(&loaded, &b.data, 4_000)?;
+            st.add("recall_reindexed_inserts", i as u64);
+            st.add("recall_reindexed_removes", r as u64);
+            let (avg, min) = b.measure(&loaded, st, wl).ok_or_else(none)?;
+            out.push(Stat { name: "interrupted_deletions.avg", value: avg, floor: 0.90 - INTERRUPTED_MARGIN });
+            out.push(Stat { name: "interrupted_deletions.min", value: min, floor: 0.50 - INTERRUPTED_MARGIN });
+        }
+        _ => return Err(format!("unknown workload {wl}")),
+    }
+    Ok(out)
+}
+
+static RECALL_VALUES: Mutex<BTreeMap<&'static str, (f64, Vec<f64>)>> = Mutex::new(BTreeMap::new());
+
+/// One case = `group` independent draws of one workload; the asserted statistic is the mean over
+/// the group (group = 1: every draw is asserted on its own).
+fn recall_case(wl: &str, group: usize, rng: &mut Rng, st: &mut Stats, assert_floors: bool) {
+    let mut sums: BTreeMap<&'static str, (f64, f64, Vec<f64>)> = BTreeMap::new();
+    for _ in 0..group {
+        match recall_draw(wl, rng, st) {
+            Err(e) => {
+                if st.violations.is_empty() {
+                    st.violation(format!("C12/recall/{wl}/workload_failed"), json!({"error": e}));
+                }
+                return;
+            }
+            Ok(stats) => {
+                st.count(&format!("recall_draws_{wl}"));
+                for s in stats {
+                    let e = sums.entry(s.name).or_insert((0.0, s.floor, vec![]));
+                    e.0 += s.value;
+                    e.2.push(s.value);
+                }
+            }
+        }
+    }
+    let mut g = RECALL_VALUES.lock().unwrap();
+    for (name, (sum, floor, vals)) in sums {
+        g.entry(name).or_insert((floor, vec![])).1.extend(&vals);
+        let mean = sum / group as f64;
+        st.count("oracle_recall_floor");
+        if assert_floors && mean < floor - 1e-9 {
+            st.violation(
+                format!("C12/recall/{name}/below_floor"),
+                json!({"workload": wl, "statistic": name, "mean_over_draws": mean, "draws": vals, "floor": floor,
+                       "note": "layer draws come from the crate's thread RNG; re-running gives new independent draws"}),
+            );
+        }
+    }
+}
+
+fn recall_summary() -> Value {
+    let g = RECALL_VALUES.lock().unwrap();
+    let mut m = serde_json::Map::new();
+    for (name, (floor, vals)) in g.iter() {
+        let mut v = vals.clone();
+        v.sort_by(|a, b| a.partial_cmp(b).unwrap());
+        if v.is_empty() {
+            continue;
+        }
+        let q = |p: f64| v[((v.len() - 1) as f64 * p).round() as usize];
+        let mean = v.iter().sum::<f64>() / v.len() as f64;
+        m.insert(name.to_string(), json!({"draws": v.len(), "floor": floor, "min": v[0], "p01": q(0.01), "p05": q(0.05),
+            "median": q(0.5), "mean": mean, "max": v[v.len() - 1], "below_floor": v.iter().filter(|x| **x < *floor).count()}));
+    }
+    Value::Object(m)
+}
+
+// ---------------------------------------------------------------------------------------------
+// monitor (4): concurrent insert / remove / search (std threads). Every id has one fixed vector,
+// so the distance clause does not depend on timing; liveness is judged against "live at some
+// point between the call and the return of the search".
+
+#[derive(Clone)]
+struct WEvent {
+    id: u64,
+    insert: bool,
+    call: u64,
+    ret: u64,
+}
+
+struct SEvent {
+    call: u64,
+    ret: u64,
+    q: Vec<f32>,
+    k: usize,
+    res: Result<Vec<(u64, f32)>, HnswError>,
+}
+
+fn stress_case(case: u64, rng: &mut Rng, st: &mut Stats, ops_per_writer: usize, searches: usize) {
+    let mut cfg = gen_cfg(rng);
+    cfg.dimension = *rng.pick(&[2usize, 8, 32]);
+    cfg.ef_construction = *rng.pick(&[4usize, 16, 40]);
+    cfg.ef_search = *rng.pick(&[4usize, 16, 64]);
+    let g = Gen::new(rng, cfg.dimension);
+    const N: u64 = 48;
+    const PERMANENT: u64 = 6;
+    const WRITERS: u64 = 2;
+    let mut vecs = Model::new();
+    for id in 0..N {
+        vecs.insert(id, round_bf16(&g.vector(rng)));
+    }
+    let idx = HnswIndex::new("c12-stress".into(), Some(cfg.clone()));
+    let clock = AtomicU64::new(1);
+    let mut wlogs: Vec<Vec<WEvent>> = vec![vec![]; WRITERS as usize];
+    for id in 0..N {
+        if id < PERMANENT || rng.bool() {
+            if idx.insert_f32(id, vecs[&id].clone(), 1).is_err() {
+                st.violation("C12/concurrent/prefill_insert_failed", json!({"id": id}));
+                return;
+            }
+            if id >= PERMANENT {
+                wlogs[((id - PERMANENT) % WRITERS) as usize].push(WEvent { id, insert: true, call: 0, ret: 0 });
+            }
+        }
+    }
+    let mut wrngs: Vec<Rng> = (0..WRITERS).map(|_| rng.fork()).collect();
+    let mut srngs: Vec<Rng> = (0..2).map(|_| rng.fork()).collect();
+    let mut slogs: Vec<Vec<SEvent>> = vec![];
+    let bad_ret = Mutex::new(Vec::<String>::new());
+    std::thread::scope(|sc| {
+        let mut wh = vec![];
+        for (t, (mut wr, mut log)) in wrngs.drain(..).zip(wlogs.drain(..)).enumerate() {
+            let (idx, clock, vecs, bad_ret) = (&idx, &clock, &vecs, &bad_ret);
+            wh.push(sc.spawn(move || {
+                let mine: Vec<u64> = (PERMANENT..N).filter(|id| (id - PERMANENT) % WRITERS == t as u64).collect();
+                let mut live: BTreeSet<u64> = log.iter().map(|e| e.id).collect();
+                for _ in 0..ops_per_writer {
+                    let id = *wr.pick(&mine);
+                    let insert = !live.contains(&id);
+                    let call = clock.fetch_add(1, Ordering::SeqCst);
+                    let ok = if insert { idx.insert_f32(id, vecs[&id].clone(), call).is_ok() } else { idx.remove(id, call) };
+                    let ret = clock.fetch_add(1, Ordering::SeqCst);
+                    if !ok {
+                        bad_ret.lock().unwrap().push(format!("{}({id}) by its only writer failed", if insert { "insert" } else { "remove" }));
+                    }
+                    if insert { live.insert(id); } else { live.remove(&id); }
+                    log.push(WEvent { id, insert, call, ret });
+                }
+                log
+            }));
+        }
+        let mut sh = vec![];
+        for mut sr in srngs.drain(..) {
+            let (idx, clock, vecs, g) = (&idx, &clock, &vecs, &g);
+            sh.push(sc.spawn(move || {
+                let mut log = vec![];
+                for _ in 0..searches {
+                    let q = if sr.bool() { vecs[&sr.below(N)].clone() } else { g.vector(&mut sr) };
+                    let k = *sr.pick(&[1usize, 3, 10, N as usize + 1]);
+                    let call = clock.fetch_add(1, Ordering::SeqCst);
+                    let res = idx.search_f32(&q, k);
+                    let ret = clock.fetch_add(1, Ordering::SeqCst);
+                    log.push(SEvent { call, ret, q, k, res });
+                }
+                log
+            }));
+        }
+        for h in wh {
+            wlogs.push(h.join().expect("writer thread"));
+        }
+        for h in sh {
+            slogs.push(h.join().expect("searcher thread"));
+        }
+    });
+    let ctx = || json!({"case": case, "config": cfg_json(&cfg), "monitor": "concurrent"});
+    for b in bad_ret.into_inner().unwrap() {
+        st.violation("C12/concurrent/return_value", json!({"what": b, "context": ctx()}));
+        return;
+    }
+    // per-id timelines (one writer per id: its events are sequential)
+    let mut tl: BTreeMap<u64, Vec<WEvent>> = BTreeMap::new();
+    for log in &wlogs {
+        for e in log {
+            tl.entry(e.id).or_default().push(e.clone());
+        }
+    }
+    let possibly_live = |id: u64, s: u64, e: u64| -> bool {
+        if id < PERMANENT {
+            return true;
+        }
+        let Some(evs) = tl.get(&id) else { return false };
+        for (i, ev) in evs.iter().enumerate() {
+            if ev.insert && ev.call <= e {
+                let end = evs.get(i + 1).map(|r| r.ret).unwrap_or(u64::MAX);
+                if end >= s {
+                    return true;
+                }
+            }
+        }
+        false
+    };
+    let tags = Tags { metric: cfg.distance_metric, strategy: cfg.select_neighbors_strategy };
+    let ever: BTreeSet<u64> = vecs.keys().copied().collect();
+    let mut overlapped = 0u64;
+    for log in &slogs {
+        for s in log {
+            st.count("concurrent_searches");
+            let mut copy = Model::new();
+            for id in 0..N {
+                if possibly_live(id, s.call, s.ret) {
+                    copy.insert(id, vecs[&id].clone());
+                }
+            }
+            if wlogs.iter().flatten().any(|w| w.call < s.ret && w.ret > s.call) {
+                overlapped += 1;
+            }
+            if !judge_search(&s.res, &s.q, s.k, &copy, &ever, &tags, "concurrent", st, &|| {
+                let mut c = ctx();
+                c["search_interval"] = json!([s.call, s.ret]);
+                c
+            }) {
+                return;
+            }
+        }
+    }
+    st.add("concurrent_searches_overlapping_a_mutation", overlapped);
+    st.add("concurrent_mutations", wlogs.iter().map(|l| l.len() as u64).sum());
+    // quiescent end state against the sequential monitor
+    let mut model = Model::new();
+    for (id, evs) in &tl {
+        if evs.last().map(|e| e.insert).unwrap_or(false) {
+            model.insert(*id, vecs[id].clone());
+        }
+    }
+    for id in 0..PERMANENT {
+        model.insert(id, vecs[&id].clone());
+    }
+    let hist = Hist { had_removal: true };
+    audit(&idx, &model, &ever, &Model::new(), &cfg, &g, &hist, &Focus::default(), rng, st, false, &ctx);
+    st.distinct(vcore::fnv_str(&format!("stress {case} {}", cfg_json(&cfg))));
+}
+
+// ---------------------------------------------------------------------------------------------
+
+fn main() {
+    let mut run = Run::from_args(
+        "C12",
+        "exploration",
+        "seeded insert/remove/re-insert/flush/reload histories over 6..48 ids, all 4 metrics, both neighbour \
+         strategies, reconnect on/off, dims {2,3,8,32,64}, M 2..8; a history is non-trivial when it uses >= 4 \
+         operation kinds (distinct by config + op sequence); recall draws are independent samples",
+    );
+    run.assume("node layers come from the crate's unseedable thread RNG (LayerGen::generate): histories are deterministic in the seed, layer draws are independent samples; a replay re-creates the operations, not the layers");
+    run.assume("crash model of the callback API: each node/ids/metadata write and each purge delete is atomic, the sequence is interruptible anywhere; flush and purge are serialized by the caller (documented contract)");
+    run.assume("distance tolerance fixed up front: 1e-2 relative + 1e-3 absolute (+1e-5 of the sum of |summands| for the inner product); inputs whose f32 kernel intermediates can overflow (> 1e37) are counted as metric-undefined, only the distance-independent clauses are judged there");
+    run.assume("completeness / self-hit of a stored vector with n <= ef_search is measured, not asserted (pruning and deletions without reconnect may legitimately disconnect the layer-0 graph)");
+    let t = run.tier;
+    // `--only measure --arg draws=N`: distribution of the recall statistics on the tree as it is
+    if run.only.as_deref() == Some("measure") {
+        let draws = run.arg_u64("draws", 200);
+        for wl in WORKLOADS {
+            run.parallel(&format!("measure_{wl}"), draws, 1.0, |_, rng, st| recall_case(wl, 1, rng, st, false));
+        }
+        println!("{}", serde_json::to_string_pretty(&recall_summary()).unwrap());
+        run.finish();
+    }
+    if run.wants("seq") {
+        run.parallel("seq", t.pick(4000, 60000), t.pick(0.45, 0.40), |c, rng, st| seq_case(c, rng, st, 40));
+    }
+    if run.wants("recall") {
+        let draws = run.arg_u64("draws", t.pick(RECALL_DRAWS_QUICK, RECALL_DRAWS_THOROUGH));
+        // one case = one asserted statistic = `group` draws of one workload
+        let plan: Vec<(&str, usize)> = WORKLOADS
+            .iter()
+            .flat_map(|wl| {
+                let g = recall_group(wl);
+                std::iter::repeat_n((*wl, g), (draws as usize).div_ceil(g))
+            })
+            .collect();
+        run.parallel("recall", plan.len() as u64, 0.6, |c, rng, st| {
+            let (wl, group) = plan[c as usize];
+            recall_case(wl, group, rng, st, true)
+        });
+        run.set_extra("recall_distribution_this_run", recall_summary());
+        run.set_extra("recall_distribution_measured_at_construction", json!(MEASURED_AT_CONSTRUCTION));
+    }
+    if run.wants("stress") {
+        run.parallel("stress", t.pick(48, 1500), 0.9, |c, rng, st| stress_case(c, rng, st, t.pick(150, 600), t.pick(150, 600)));
+    }
+    for m in METRICS {
+        run.floor(&format!("search_{}", metric_name(m)), t.pick(20_000, 400_000));
+    }
+    run.floor("search_simple", t.pick(50_000, 1_000_000));
+    run.floor("search_heuristic", t.pick(50_000, 1_000_000));
+    run.floor("oracle_distance_value", 200_000);
+    run.floor("oracle_order_multi", 50_000);
+    run.floor("search_q_removed_id_probe", 5_000);
+    run.floor("search_q_reinsert_probe_old_vector", 1_000);
+    run.floor("search_q_reinsert_probe_new_vector", 1_000);
+    run.floor("search_q_ood_zero", 1_000);
+    run.floor("search_q_ood_huge_norm", 1_000);
+    run.floor("search_q_crash_absent_id_probe", 1_000);
+    run.floor("search_via_bf16_api", 1_000);
+    run.floor("op_insert_duplicate_id", 200);
+    run.floor("op_remove_missing_id", 200);
+    run.floor("op_reinsert", 1_000);
+    run.floor("flush_crash_prefixes", 5_000);
+    run.floor("crash_prefix_within_nodes", 1_000);
+    run.floor("crash_prefix_between_ids_and_metadata", 500);
+    run.floor("crash_prefix_after_commit", 500);
+    run.floor("crash_prefix_within_purge", 100);
+    run.floor("flush_with_mutation_in_flight", 200);
+    run.floor("crash_state_with_missing_blob_repaired_by_load", 20);
+    run.floor("flush_failed_injected", 100);
+    run.floor("recovered_reindexed_reflushed", 1_000);
+    run.floor("self_probe", 10_000);
+    run.floor("disconnected_after_removal_without_reconnect", 1);
+    for wl in WORKLOADS {
+        run.floor(&format!("recall_draws_{wl}"), t.pick(RECALL_DRAWS_QUICK, RECALL_DRAWS_THOROUGH) * 3 / 4);
+    }
+    run.floor("concurrent_searches", 1_000);
+    run.floor("concurrent_searches_overlapping_a_mutation", 100);
+    run.finish();
+}
+
+const RECALL_DRAWS_QUICK: u64 = 15;
+const RECALL_DRAWS_THOROUGH: u64 = 100;
+
+/// Draws per asserted statistic (1 = every draw asserted on its own); decided from the
+/// distribution measured on the unchanged tree, see MEASURED_AT_CONSTRUCTION: only the sparse
+/// heavy-deletions workload has a lower tail that touches a documented floor (heavy.min50 = 0.50
+/// in 1 of 200 draws, floor 0.50), so its statistics are means over 5 draws.
+fn recall_group(wl: &str) -> usize {
+    if wl == "heavy_deletions" { 5 } else { 1 }
+}
+
+const MEASURED_AT_CONSTRUCTION: &str = "200 independent draws per workload on the unchanged tree (seed 7): \
+euclidean/cosine/deletions/churn/round_trip and the three interrupted-flush variants: avg = min = 1.0000 in all 200 draws \
+(floors 0.95/0.60, 0.90/0.50, 0.93/0.60, 0.95; variants floor - 0.05); round_trip |before-after| = 0 in all draws; \
+heavy_deletions: avg50-before min -0.0060 p01 -0.0020 mean +0.0194 (floor -0.06); min50 min 0.50 p01 0.60 mean 0.692 (floor 0.50); \
+avg80-before min +0.038 mean +0.065 (floor -0.08); min80 min 0.70 mean 0.764 (floor 0.50). \
+heavy.min50 touches its floor in the lower tail => heavy_deletions is asserted on the mean over 5 draws.";
